@@ -367,6 +367,11 @@ def decode_template(data):
             out.append(("arg",))
             i += 1
             continue
+        if x == 0xC8:
+            # placeholder with an explicit argument position (u16 LE); later implicit placeholders continue after it
+            out.append(("arg", b[i + 1] | (b[i + 2] << 8)))
+            i += 3
+            continue
         if x >= 0x80:
             raise Inconclusive("format template byte 0x%x not understood" % x)
         out.append(("lit", bytes(b[i + 1:i + 1 + x]).decode("utf-8")))
@@ -388,13 +393,17 @@ def m_format(ex, st, callee, args):
         arr = ex.deref(st, fargs[1])
         items = list(arr.fields)
         variants = [(z3.BoolVal(True), [])]      # (condition, chars so far): Debug formatting forks on character classes
+        argi = 0
         for piece in tmpl:
             if piece[0] == "lit":
                 variants = [(c, cs + [ch(ord(x)) for x in piece[1]]) for c, cs in variants]
                 continue
-            if not items:
+            if len(piece) > 1:
+                argi = piece[1]
+            if argi >= len(items):
                 raise Inconclusive("format: more placeholders than arguments")
-            it = items.pop(0)
+            it = items[argi]
+            argi += 1
             if not (isinstance(it, Opaque) and it.tag == "fmt" and ("new_display" in it.data[0] or "new_debug" in it.data[0])):
                 raise Inconclusive("opaque")
             v = it.data[1][0]
